@@ -211,7 +211,33 @@ func (g *Gen) Device(t *Config, nedits int) (*Store, []string) {
 		case 7: // change rule attribute
 			if p, i := someRule(); p != nil {
 				r := p.Rules[i]
-				switch g.Rng.Intn(4) {
+				switch g.Rng.Intn(13) {
+				case 11:
+					r.Action = map[string]string{"ALLOW": "DROP", "DROP": "ALLOW", "REJECT": "ALLOW"}[r.Action]
+				case 12:
+					r.Scope = []string{"/infra/tier-0s/old"}
+				case 4:
+					r.IPProtocol = map[string]string{"IPV4": "IPV6", "IPV6": "IPV4", "IPV4_IPV6": "IPV4"}[r.IPProtocol]
+				case 5:
+					r.Disabled = !r.Disabled
+				case 6:
+					r.Tag = map[bool]string{true: "", false: "old-tag"}[r.Tag != ""]
+				case 7:
+					r.SourcesExcluded = !r.SourcesExcluded
+				case 8:
+					r.DestinationsExcluded = !r.DestinationsExcluded
+				case 9:
+					if len(r.Profiles) > 0 {
+						r.Profiles = nil
+					} else {
+						r.Profiles = []string{"/infra/context-profiles/old"}
+					}
+				case 10:
+					if len(s.Services) > 0 && r.Services[0] == "ANY" {
+						r.Services = []string{ServicePath + s.Services[g.Rng.Intn(len(s.Services))].Id}
+					} else {
+						r.Services = []string{"ANY"}
+					}
 				case 0:
 					r.Logged = !r.Logged
 				case 1:
